@@ -59,7 +59,7 @@ theorem request_kept_until_terminal (cfg : Manager.Cfg) (i : Manager.In) (k : Sw
   -- request from a finished one (`SwitchoverLemmas.request_kept_counterexample`, kernel-checked).
   exact SwitchoverLemmas.request_kept_until_terminal cfg i k sw hs hkeep hp hfresh
 
-/-! ### the known finding, on the models (known_findings.json: `…manager-died-after-new-master-writable-before-master-key-written`)
+/-! ### the known finding, on the models (known_findings.json: `…promoted-node-was-never-recorded`)
 
 `crash_keeps_old_master_key` + `master_key_after_writable`: a manager that dies after `setWritable new true` and before
 `setMasterKey` leaves `new` writable and the OLD master recorded.  What the successor then does with the pending
